@@ -146,6 +146,26 @@ def _containment_by_evaluation(ctx, fi):
 
 def r1(ctx):
     fi = ctx.fn(PJS)
+    # the answer is a function of the two arguments and of the current directory at the time of the call: nothing that
+    # path_join_safe reaches in the package is memoised or otherwise wrapped (a cached `abspath(root)` keeps answering for the
+    # directory the process was in at the first call - a relative root then names a directory outside of today's root)
+    cg = ctx.callgraph()
+    seen, stack, wrapped = {fi.qual}, [fi.qual], []
+    while stack:
+        q_ = stack.pop()
+        for e_ in cg.out.get(q_, []):
+            if e_.approx or e_.callee.qual in seen:
+                continue
+            seen.add(e_.callee.qual)
+            stack.append(e_.callee.qual)
+            extra = [d_ for d_ in e_.callee.decorators if d_ not in ("staticmethod", "classmethod")]
+            if extra:
+                wrapped.append({"function": e_.callee.qual, "decorators": extra})
+    extra0 = [d_ for d_ in fi.decorators if d_ not in ("staticmethod", "classmethod")]
+    if extra0:
+        wrapped.append({"function": fi.qual, "decorators": extra0})
+    ctx.check(not wrapped, "C17.R1", fi, "path_join_safe and what it calls in the package are plain functions (no cache, no wrapper)",
+              "the containment argument is about the values computed in this call", witness=wrapped)
     ev = _containment_by_evaluation(ctx, fi)
     if ev is None:
         return _r1_shape(ctx)
